@@ -292,7 +292,7 @@ fn check_full_expr(env: &Env, e: &Expr, in_condition: bool, ex: &Excl) -> Option
     if ex.has("compound16_in_condition") {
         // a compound expression of 16-bit type used as a truth value or as an operand of a comparison
         let wide = |x: &Expr| -> bool {
-            matches!(x, Expr::Bin(..) | Expr::Un(UnOp::Neg, _) | Expr::Un(UnOp::BNot, _) | Expr::Ternary(..) | Expr::Assign(..) | Expr::IncDec(..) | Expr::Comma(..))
+            matches!(x, Expr::Bin(..) | Expr::Un(UnOp::Neg, _) | Expr::Un(UnOp::BNot, _) | Expr::Ternary(..) | Expr::Assign(..) | Expr::Comma(..))
                 && !matches!(x, Expr::Bin(op, _, _) if op.is_cmp() || matches!(op, BinOp::LAnd | BinOp::LOr))
                 && env.expr_ty(x).map(|t| t.bits() == 16 && t != Ty::Ptr).unwrap_or(false)
         };
